@@ -58,6 +58,9 @@ enum Case {
         r_odd: Option<bool>,
         seed: String,
     },
+    /// honest-algorithm shares of a set below the real threshold, thresholds lied about:
+    /// whatever aggregate returns as Ok must verify (C04's first sentence)
+    Below { suite: String, n: u16, t: u16, signers: u32, seed: String },
     /// every error vector in GF(q)^k on a fixed non-degenerate session
     Tiny { q: u64, n: u16, t: u16, k: usize, seed: String },
 }
@@ -206,6 +209,18 @@ impl Prop for C04 {
                 }
             }
         }
+        for (n, t) in real_shapes(tier) {
+            for suite in REAL_SUITES {
+                if suite == "ed448" && n > 4 {
+                    continue;
+                }
+                for s in subsets(n as usize, 1, t as usize - 1) {
+                    out.push(
+                        serde_json::to_value(Case::Below { suite: suite.to_string(), n, t, signers: s, seed: format!("s{seed}") }).unwrap(),
+                    );
+                }
+            }
+        }
         for q in [7u64, 11, 13] {
             for k in 2..=tier.pick(3usize, 4usize) {
                 for (n, t) in [(k as u16, k as u16), (k as u16 + 1, 2u16)] {
@@ -231,6 +246,7 @@ impl Prop for C04 {
         let c: Case = serde_json::from_value(case.clone()).expect("case");
         match &c {
             Case::Real { suite, .. } => with_suite!(suite.as_str(), run_real, &c),
+            Case::Below { suite, .. } => with_suite!(suite.as_str(), run_below, &c),
             Case::Tiny { q, .. } => match q {
                 7 => run_tiny::<7>(&c),
                 11 => run_tiny::<11>(&c),
@@ -454,6 +470,57 @@ fn run_real<C: Suite>(c: &Case) -> Outcome {
             let got = culprit_set::<C>(e);
             if got != vec![id_hex::<C>(id)] {
                 o.fail(format!("{tag}/verify-share-culprit"), format!("{ctx}: share verification of pos {i} failed naming {got:?}"));
+            }
+        }
+    }
+    o
+}
+
+fn run_below<C: Suite>(c: &Case) -> Outcome {
+    let mut o = Outcome::new();
+    let Case::Below { n, t, signers, seed, .. } = c else { unreachable!() };
+    let tag = format!("C04/{}", C::name());
+    let grp = match cached_group::<C>(KeySrc::Dealer, *n, *t, IdKind::U16x, seed) {
+        Ok(g) => g,
+        Err(e) => {
+            o.eval(false);
+            o.fail(format!("{tag}/setup"), e);
+            return o;
+        }
+    };
+    let s = pick::<C>(&grp.ids, *signers);
+    let k = s.len() as u16;
+    let m = message(2);
+    let mut kps = BTreeMap::new();
+    for id in &s {
+        let kp = &grp.kps[id];
+        kps.insert(*id, KeyPackage::new(*kp.identifier(), *kp.signing_share(), *kp.verifying_share(), *kp.verifying_key(), k));
+    }
+    let Ok(sess) = run_session::<C>(&kps, &s, &m, &format!("{seed}:below:{signers}")) else {
+        o.eval(false);
+        return o;
+    };
+    o.eval(true);
+    for pm in [Some(k), None, Some(1), Some(0)] {
+        let lp = PublicKeyPackage::<C>::new(grp.pkp.verifying_shares().clone(), *grp.pkp.verifying_key(), pm);
+        for (mn, mode) in [("Disabled", 0), ("FirstCheater", 1), ("AllCheaters", 2)] {
+            let cd = match mode {
+                0 => CheaterDetection::Disabled,
+                1 => CheaterDetection::FirstCheater,
+                _ => CheaterDetection::AllCheaters,
+            };
+            o.count("below_threshold_aggregations", 1);
+            match C::w_aggregate_custom(&sess.pkg, &sess.shares, &lp, cd) {
+                Ok(sig) => {
+                    if let Err(e) = verify_everywhere::<C>(grp.pkp.verifying_key(), &m, &sig) {
+                        o.fail(
+                            format!("{tag}/released-invalid-signature/{mn}"),
+                            format!("n={n} t={t} |S|={k} pkp-threshold={pm:?}: aggregate returned a signature that does not verify: {e}"),
+                        );
+                    }
+                    o.class("below-ok");
+                }
+                Err(_) => o.class("below-err"),
             }
         }
     }
